@@ -17,13 +17,19 @@ fp("dask/dataframe/dask_expr/_expr.py", "Blockwise._task", "Blockwise._blockwise
 
 # C37
 fp("dask/dataframe/dask_expr/_reductions.py", "TreeReduce._layer", "TreeReduce.split_every", "ApplyConcatApply._lower",
-   "Reduction.chunk", "Reduction.combine", "Reduction.aggregate", "Sum", "Max", "Count", "Mean._lower")
+   "Reduction.chunk", "Reduction.combine", "Reduction.aggregate", "Sum", "Max", "Count", "Mean._lower",
+   "Max.chunk", "Max.combine", "Max._element", "Any", "All", "IdxMin", "ValueCounts", "NLargest", "NSmallest",
+   "ReductionConstantDim.chunk", "ReductionConstantDim.combine", "Len", "_concat_partials")
+fp("dask/dataframe/core.py", "idxmaxmin_chunk", "idxmaxmin_row", "idxmaxmin_combine", "idxmaxmin_agg")
+fp("dask/dataframe/methods.py", "value_counts_combine", "value_counts_aggregate")
 
 # C43
 fp("dask/_expr.py", "Expr.simplify", "Expr.simplify_once", "Expr.lower_once", "Expr.lower_completely", "optimize_until")
 fp("dask/dataframe/dask_expr/_expr.py", "Projection._simplify_down", "Filter._simplify_up", "Assign._simplify_down",
    "Assign._simplify_up", "Assign._remove_common_columns", "plain_column_projection", "determine_column_projection",
-   "is_filter_pushdown_available", "Blockwise._simplify_up", "optimize_blockwise_fusion")
+   "is_filter_pushdown_available", "Blockwise._simplify_up", "optimize_blockwise_fusion",
+   "rewrite_filters", "_get_predicate_components", "_convert_mapping", "_replace_common_or_components",
+   "Head._simplify_down", "ResetIndex._simplify_up", "Partitions._simplify_down")
 
 # C42
 fp("dask/dataframe/dask_expr/_expr.py", "Blockwise._meta", "Projection._meta", "Assign._meta")
